@@ -16,7 +16,7 @@ CLAIMED = {
 
 CLAIMED["C07"] = dict(
     category="proof",
-    text="Theorems in coq/Props/Properties_C07.v about an executable Gallina model of lib/io.c (sinks, multiplexer) and of the staging loops of lib/b64.c: the streaming base64url stages equal the one-shot codec for EVERY split into feeds (induction over chunk lists, no bound); the chunking theorem C07_chunking for every chain of lawful stages, sinks and arbitrarily nested multiplexers (structural induction on the chain); failure propagation; buffer capacity invariant; any/all multiplexer verdicts and dropped branches. OpenSSL/zlib-backed stages enter through the stream law (accumulate-then-emit stages proved outright; incremental ones under the prefix-extension hypothesis). Tie: extracted model vs chains built from the public constructors plus a fault-injecting sink, all compositions of short inputs, boundary lengths, every fault position. Also exercised: per-branch metamorphic oracle (a branch inside a multiplexer delivers what it delivers alone) and verdict oracle (any = OR, all = AND); deflate / inflate stages (implementation only): chunkings, exact buffer capacity behind the compressor, faults at feed and done.",
+    text="Theorems in coq/Props/Properties_C07.v about an executable Gallina model of lib/io.c (sinks, multiplexer) and of the staging loops of lib/b64.c: the streaming base64url stages equal the one-shot codec for EVERY split into feeds (induction over chunk lists, no bound); the chunking theorem C07_chunking for every chain of lawful stages, sinks and arbitrarily nested multiplexers (structural induction on the chain); failure propagation; buffer capacity invariant; any/all multiplexer verdicts and dropped branches. OpenSSL/zlib-backed stages enter through the stream law (accumulate-then-emit stages proved outright; incremental ones under the prefix-extension hypothesis). Tie: extracted model vs chains built from the public constructors plus a fault-injecting sink, all compositions of short inputs, boundary lengths, every fault position. Also exercised: per-branch metamorphic oracle (a branch inside a multiplexer delivers what it delivers alone) and verdict oracle (any = OR, all = AND); deflate / inflate stages (implementation only): chunkings, exact buffer capacity behind the compressor, faults at feed and done. The streaming content encryptor jose_jwe_enc_io (with and without the deflate stage) is fed the plaintext in chunkings around the block sizes 16/48/64/4096 and its product decrypted by jose and by the Gallina decryptor.",
     design_ref="DESIGN.md section 3 C07",
     note="Coq kernel; no axioms; hypothesis of C07_prefix_stream (output of a cipher/deflate stage for a longer input extends that for a prefix) is a property of OpenSSL/zlib, not proved; the model's list-at-once semantics is tied to the per-call C code by the correspondence only.",
     technique="Coq proof (induction on chunk lists and on chain structure) + extracted-model correspondence with fault injection",
@@ -48,7 +48,7 @@ CLAIMED["C06"] = dict(
 
 CLAIMED["C11"] = dict(
     category="proof",
-    text="Theorems in coq/Props/Properties_C11.v about a statement-by-statement Gallina model of jose_jwk_gen (the 12 preparation hooks in the running order dumped from the harness, the oct/RSA/EC makers, the post-processing): an accepted template is consistent and every contradictory / unsupported / too-small / nothing-generable template is rejected (both directions: C11_accepted_is_consistent, C11_rejects, C11_accepts_iff); the algorithm-implied kty/crv/bytes table is RFC 7518's; an oct key's k is exactly the first n drawn octets with n the requested or implied size (any other 'bytes', 0 included, is a contradiction); RSA: 2048 <= bits <= 16384 on the 64-bit value, exponent accepted iff 3 or odd in [2^16, 2^256) and never negative, members are the generated numbers; generation-only members are gone for every accepted template; key_ops inferred exactly per algorithm kind and left alone when use/key_ops is given; other members pass through; required members present. What OpenSSL's generators deliver enters as Section hypotheses (modulus of 2*(bits/2) bits, n = pq, ed = 1 mod lcm, CRT members; d G = Q on the requested curve) which python re-checks on every generated key. Tie: ~3 600 templates (every registered algorithm x kty/crv/bits/bytes/e incl. boundaries, with/without use/key_ops) on jose_jwk_gen vs the extracted model after masking random material; every accepted key is used once with its algorithm; freshness (keys, CEKs, IVs, salts, epks never repeat) over ~2 100 pairwise checks. Also exercised: two-recipient encryptions with the randomised recipient in second position (salt / epk / iv fresh for every recipient); generation after an earlier key was exported in place (independence of successive generations).",
+    text="Theorems in coq/Props/Properties_C11.v about a statement-by-statement Gallina model of jose_jwk_gen (the 12 preparation hooks in the running order dumped from the harness, the oct/RSA/EC makers, the post-processing): an accepted template is consistent and every contradictory / unsupported / too-small / nothing-generable template is rejected (both directions: C11_accepted_is_consistent, C11_rejects, C11_accepts_iff); the algorithm-implied kty/crv/bytes table is RFC 7518's; an oct key's k is exactly the first n drawn octets with n the requested or implied size (any other 'bytes', 0 included, is a contradiction); RSA: 2048 <= bits <= 16384 on the 64-bit value, exponent accepted iff 3 or odd in [2^16, 2^256) and never negative, members are the generated numbers; generation-only members are gone for every accepted template; key_ops inferred exactly per algorithm kind and left alone when use/key_ops is given; other members pass through; required members present. What OpenSSL's generators deliver enters as Section hypotheses (modulus of 2*(bits/2) bits, n = pq, ed = 1 mod lcm, CRT members; d G = Q on the requested curve) which python re-checks on every generated key. Tie: ~3 600 templates (every registered algorithm x kty/crv/bits/bytes/e incl. boundaries, with/without use/key_ops) on jose_jwk_gen vs the extracted model after masking random material; every accepted key is used once with its algorithm; freshness (keys, CEKs, IVs, salts, epks never repeat) over ~2 100 pairwise checks. Also exercised: two-recipient encryptions with the randomised recipient in second position (salt / epk / iv fresh for every recipient); generation after an earlier key was exported in place (independence of successive generations). Since /repo ae0155e a generated RSA key whose size differs from the request is refused: C11_rsa_consistent states size = bits, C11_rsa_odd_size_refused that odd sizes are refused under OpenSSL's rounding.",
     design_ref="DESIGN.md section 3 C11",
     note="PARTIAL for freshness: a property of OpenSSL's RNG, checked dynamically only (no deterministic-RNG hook). Open known findings: a key generated for alg 'dir' does not work with dir; odd RSA sizes are rounded down by OpenSSL.",
     technique="Coq proof on a statement-level model of the generation hooks (generators as Section hypotheses) + extracted-model correspondence with masked randomness and use-the-key oracle",
@@ -80,7 +80,7 @@ CLAIMED["C01"] = dict(
 
 CLAIMED["C19"] = dict(
     category="proof",
-    text="A reference interpreter of 'jose fmt' written from the manual (coq/Cli/Fmt.v: options, a store of shared mutable values, the -X flag, stdout; set-valued where the manual is silent) with theorems in coq/Props/Properties_C19.v proved for all programs: exit status = 1-based index of the first failing option and nothing executed or printed after it; type-error table; frame lemmas for every option letter (which stack cell / store node changes, everything else unchanged); -X applies exactly once; index conversion; truncation. Tie (translation-validation style): the built jose binary vs the extracted interpreter on all programs of length <= 2 over a 70-instance option alphabet after 6 prefixes plus seeded random programs; the binary's (status, stdout) must lie in the allowed set; disagreements are shrunk to minimal programs.",
+    text="A reference interpreter of 'jose fmt' written from the manual (coq/Cli/Fmt.v: options, a store of shared mutable values, the -X flag, stdout; set-valued where the manual is silent) with theorems in coq/Props/Properties_C19.v proved for all programs: exit status = 1-based index of the first failing option and nothing executed or printed after it; type-error table; frame lemmas for every option letter (which stack cell / store node changes, everything else unchanged); -X applies exactly once; index conversion; truncation. Tie (translation-validation style): the built jose binary vs the extracted interpreter on all programs of length <= 2 over a 70-instance option alphabet after 6 prefixes plus seeded random programs; the binary's (status, stdout) must lie in the allowed set; disagreements are shrunk to minimal programs. Since /repo 44b7a8d the options that store a reference refuse to close a cycle; coq/Cli/FmtAcyclic.v proves that no reachable state holds a value containing itself (C19_acyclic_*), so -o/-f/-c/-E are total on reachable states.",
     design_ref="DESIGN.md section 3 C19",
     note="Coq kernel; no axioms; the reference semantics is the reader's transcription of the manual (the silent spots are listed in coq/Cli/C19_NOTES.md); getopt and file/tty handling are exercised, not modelled; exit status is 8 bits (programs <= 255 options).",
     technique="Coq proof about a reference semantics + differential check of the binary against the extracted interpreter (outcome-set membership)",
@@ -88,7 +88,7 @@ CLAIMED["C19"] = dict(
 
 CLAIMED["C03"] = dict(
     category="proof",
-    text="Theorems in coq/Props/Properties_C03.v: the product of jose_jws_sig (model in Jose/Jws.v, Jose/SigAlgs.v) is the RFC 7515 construction -- algorithm chosen and recorded as in C15, protected header encoded once and used verbatim, signing input protected || '.' || payload, signature member = base64url of the signature octets (which decodes back), merged by add_entity (C16); the verifier (C01) evaluates the primitive on the same bytes; the HMAC family satisfies verify(sign(m)); RFC 7515 A.1 is reproduced bit for bit inside the kernel (vm_compute). Tie, both directions: jose's HMAC products compared bit for bit with the extracted model and with python hmac over key sizes 0..1025, every algorithm source, template form, start form, key sets; jose's RSA/PSS/ECDSA products verified by the independent BigZ implementation (for RSASSA-PKCS1-v1_5 this is bit-identity: s^e mod n = EM); tokens produced by the model (HMAC; ECDSA with supplied nonce) and all RFC 7515 / RFC 7520 section 4 examples verify in jose. Also exercised: 300 ECDSA products per curve checked for full-width r||s and verified by an independent python verifier; key sets signed with one template (per-key HMAC recomputation); several signatures of one algorithm verified with every key alone, in both orders and in all-mode.",
+    text="Theorems in coq/Props/Properties_C03.v: the product of jose_jws_sig (model in Jose/Jws.v, Jose/SigAlgs.v) is the RFC 7515 construction -- algorithm chosen and recorded as in C15, protected header encoded once and used verbatim, signing input protected || '.' || payload, signature member = base64url of the signature octets (which decodes back), merged by add_entity (C16); the verifier (C01) evaluates the primitive on the same bytes; the HMAC family satisfies verify(sign(m)); RFC 7515 A.1 is reproduced bit for bit inside the kernel (vm_compute). Tie, both directions: jose's HMAC products compared bit for bit with the extracted model and with python hmac over key sizes 0..1025, every algorithm source, template form, start form, key sets; jose's RSA/PSS/ECDSA products verified by the independent BigZ implementation (for RSASSA-PKCS1-v1_5 this is bit-identity: s^e mod n = EM); tokens produced by the model (HMAC; ECDSA with supplied nonce) and all RFC 7515 / RFC 7520 section 4 examples verify in jose. Also exercised: 300 ECDSA products per curve checked for full-width r||s and verified by an independent python verifier; key sets signed with one template (per-key HMAC recomputation); several signatures of one algorithm verified with every key alone, in both orders and in all-mode. The streaming signer jose_jws_sig_io fed the payload text in arbitrary chunks is compared with the one-shot call (HMAC bit for bit; ECDSA/RSA products verified).",
     design_ref="DESIGN.md section 3 C03/C04",
     note="Coq kernel; no axioms in the theorems (Int63 primitives only inside the BigZ evaluation); primitive laws for RSA/ECDSA and JSON parse(dump)=id are assumed/validated, not proved; Gallina primitives validated on standard vectors.",
     technique="Coq proof (unfolding of the signing pipeline, base64 round trip) + bit-exact correspondence and cross-verification with independent Gallina primitives (extracted and vm_compute/BigZ)",
@@ -152,7 +152,7 @@ CLAIMED["C17"] = dict(
 
 CLAIMED["C02"] = dict(
     category="proof",
-    text="Theorems in coq/Props/Properties_C02.v about Gallina models of jose_jwe_dec_jwk / jose_jwe_dec_cek(_io) / jose_jwe_dec (lib/jwe.c) and of the per-algorithm unwrap and content-decryption code (lib/openssl/*.c): success means exactly that the key unwraps a CEK from the targeted recipient and that AEAD-open succeeds under that CEK over the AAD input protected [|| '.' || aad] IN FULL, the iv, the ciphertext octets and the tag, followed by inflate when zip is in the protected header; no recipient / no key gives failure. Tie: library-produced tokens for key-management x content-encryption x zip x aad (absent, shorter, equal, longer than protected), decrypted with the recipient key, a foreign key and key sets; single-character mutations of every integrity-relevant member (protected, aad, iv, ciphertext, tag, encrypted_key, p2s, p2c, epk, wrapped iv/tag) and structural mutations; symmetric and PBES2 recipients also on the extracted model with independent Gallina AES-GCM / CBC-HMAC / RFC 3394 / PBKDF2 / inflate. Also exercised: tokens without any protected header; PBES2 at the maximum count with upward changes of p2c; forged recipients (raw content key as encrypted_key under RSA1_5 / RSA-OAEP / A128KW / ECDH-ES); epk.y negated (open known finding).",
+    text="Theorems in coq/Props/Properties_C02.v about Gallina models of jose_jwe_dec_jwk / jose_jwe_dec_cek(_io) / jose_jwe_dec (lib/jwe.c) and of the per-algorithm unwrap and content-decryption code (lib/openssl/*.c): success means exactly that the key unwraps a CEK from the targeted recipient and that AEAD-open succeeds under that CEK over the AAD input protected [|| '.' || aad] IN FULL, the iv, the ciphertext octets and the tag, followed by inflate when zip is in the protected header; no recipient / no key gives failure. Tie: library-produced tokens for key-management x content-encryption x zip x aad (absent, shorter, equal, longer than protected), decrypted with the recipient key, a foreign key and key sets; single-character mutations of every integrity-relevant member (protected, aad, iv, ciphertext, tag, encrypted_key, p2s, p2c, epk, wrapped iv/tag) and structural mutations; symmetric and PBES2 recipients also on the extracted model with independent Gallina AES-GCM / CBC-HMAC / RFC 3394 / PBKDF2 / inflate. Also exercised: tokens without any protected header; PBES2 at the maximum count with upward changes of p2c; forged recipients (raw content key as encrypted_key under RSA1_5 / RSA-OAEP / A128KW / ECDH-ES); epk.y negated (open known finding). Tokens with several recipients are decrypted through the rcp argument with matching and mismatching keys, and streaming decryption (jose_jwe_dec_io, any chunking of the ciphertext text) is compared with the one-shot verdict and plaintext.",
     design_ref="DESIGN.md section 3 C02",
     note="Coq kernel; no axioms; integrity of the primitives (a changed input makes AEAD-open / unwrap fail) is cryptography and not proved; ECDH-ES and RSA recipients are checked on the implementation with the mutation oracle in this check.",
     technique="Coq proof (closed form of the decryption pipeline) + extracted-model correspondence with mutation",
